@@ -38,8 +38,15 @@ def main() -> int:
                     result["counters"]["non_finite_output_values_seen"] = len(_scn.NAN_SEEN)
             except HarnessError as e:
                 result = dict(harness_error=str(e), violations=[], situations={}, counters={})
-            except (Exception, SystemExit):  # noqa: BLE001  (a SystemExit escaping run_case is a harness bug, not a verdict)
-                result = dict(harness_error=traceback.format_exc(), violations=[], situations={}, counters={})
+            except (Exception, SystemExit) as e:  # noqa: BLE001  (a SystemExit escaping run_case is a harness bug, not a verdict)
+                tb_ = traceback.extract_tb(e.__traceback__)
+                inner = tb_[-1].filename if tb_ else ""
+                if isinstance(e, Exception) and str(Path(inner)).startswith(str(env.REPO.resolve()) + "/"):
+                    # raised inside the code under test while the check called it directly with a set-up of its scenario space: a verdict, not a harness fault
+                    result = dict(violations=[dict(what=f"the code under test raised {type(e).__name__}: {e} ({Path(inner).name}:{tb_[-1].lineno}) on a valid set-up of this check",
+                                                   detail=dict(tb=traceback.format_exc()[-1500:]))], situations={}, counters={}, nontrivial=True, key=None, sample=dict(case=it["case"]))
+                else:
+                    result = dict(harness_error=traceback.format_exc(), violations=[], situations={}, counters={})
             finally:
                 shutil.rmtree(wd, ignore_errors=True)
             out.write(json.dumps({"index": it["index"], "result": result}, default=_default) + "\n")
